@@ -560,6 +560,76 @@ def k_headers(ctx):
     run.extra["header_cases"] = len(cases)
 
 
+# =============================================================== 3b. histories over one configuration object
+H_VALUES = ["plain", "$C19_H1", "$C19_H2", "$$C19_H1", "Bearer $C19_H1", "$C19_CHAIN"]
+H_ENVVALS = ["tok-1", "tok-2", "tok-3", "", None, "$C19_H1", "$literal"]
+
+
+def gen_history(rng):
+    keys = rng.sample(["Authorization", "X-Api-Key", "x-a", "Cookie"], rng.randint(1, 3))
+    headers = {k: rng.choice(H_VALUES) for k in keys}
+    envs = []
+    for _ in range(rng.randint(2, 5)):
+        env = {}
+        for name in ("C19_H1", "C19_H2", "C19_CHAIN"):
+            v = rng.choice(H_ENVVALS[:3] + H_ENVVALS)
+            if v is not None:
+                env[name] = v
+        envs.append(env)
+    return headers, envs
+
+
+def k_histories(ctx, tmp):
+    """Several settings constructions in one process over the SAME config dict object while the environment rotates:
+    each must resolve against the configuration as written (Model: run_history), and leave it untouched."""
+    import copy
+
+    from ariadne_codegen.config import get_client_settings, get_graphql_schema_settings
+    from ariadne_codegen.exceptions import InvalidConfiguration
+
+    run, rng = ctx.run, ctx.rng
+    n = 1200 if ctx.thorough else 250
+    cases = [gen_history(rng) for _ in range(n)]
+    res = model.batch(ENG, [I(Sym("history"), "http://127.0.0.1:1/graphql", [[k, v] for k, v in h.items()], True,
+                              [[[k, v] for k, v in e.items()] for e in envs]) for h, envs in cases])
+    old = dict(os.environ)
+    try:
+        for ci, ((headers, envs), (m_steps, m_cfg)) in enumerate(zip(cases, res)):
+            inner = dict(headers)
+            cfg = {"tool": {"ariadne-codegen": {"remote_schema_url": "http://127.0.0.1:1/graphql", "remote_schema_headers": inner,
+                                                 "queries_path": tmp, "remote_schema_verify_ssl": True}}}
+            orig = copy.deepcopy(cfg)
+            real = []
+            for si, env in enumerate(envs):
+                for k in [k for k in os.environ if k.startswith("C19_")]:
+                    del os.environ[k]
+                os.environ.update(env)
+                fn = get_client_settings if (ci + si) % 2 == 0 else get_graphql_schema_settings
+                try:
+                    st = fn(cfg)
+                    real.append(["ok", [[k, v] for k, v in st.remote_schema_headers.items()]])
+                except InvalidConfiguration as e:
+                    msg = str(e)
+                    real.append(["err", msg[len("Environment variable "):-len(" not found.")]])
+            run.count()
+            run.dist("history_length", str(len(envs)))
+            if any(v.startswith("$") for v in headers.values()):
+                run.nontrivial_case(("history", ci))
+            unchanged = cfg == orig and cfg["tool"]["ariadne-codegen"]["remote_schema_headers"] is inner
+            replay = {"headers": headers, "envs": envs, "impl": real, "model": m_steps, "config_after": cfg}
+            if not unchanged or [[k, v] for k, v in inner.items()] != m_cfg:
+                run.violation(f"history: the configuration object was modified by a run: {inner} (written: {headers})", replay)
+            if real != m_steps:
+                # the property's oracle: what step i resolves must be what a fresh process would resolve for env i
+                first = next(i for i, (a, b) in enumerate(zip(real, m_steps)) if a != b)
+                run.violation(f"history: step {first} resolved {real[first]} but the configuration {headers} under "
+                              f"{envs[first]} resolves to {m_steps[first]} (earlier steps: {envs[:first]})", replay)
+    finally:
+        os.environ.clear()
+        os.environ.update(old)
+    run.extra["history_cases"] = n
+
+
 # =============================================================== 4. decision chain over loopback HTTP
 def valid_introspection():
     from graphql import build_schema, introspection_from_schema
@@ -937,6 +1007,9 @@ def corpus_scenarios():
                          [("a.gql", [1]), ("old.graphqls/b.graphql", rest + [0])]]
         sc["noise"] = ["README.md"]
         sc["introspection"] = [{"headers": {"Authorization": "$C19_TOKEN"}, "env": {"C19_TOKEN": "tok"}}]
+        sc["history"] = {"headers": {"Authorization": "$C19_TOKEN", "X-Chain": "$C19_CHAIN", "X-Plain": "p"},
+                         "envs": [{"C19_TOKEN": "tok-1", "C19_CHAIN": "$C19_TOKEN"}, {"C19_TOKEN": "tok-2", "C19_CHAIN": "c2"},
+                                  {"C19_CHAIN": "c3"}, {"C19_TOKEN": "tok-4", "C19_CHAIN": "c4"}]}
     return out
 
 
@@ -1113,6 +1186,33 @@ def k_scenarios(ctx, tmp):
                 if d:
                     run.violation(f"{key}: {f} differs between SDL and introspection: {d}", {**replay, "file": f, "diff": d})
             compare_inputs(run, sp["input_types.py"], ip["input_types.py"], minfo, dec, replay, key)
+        # ---------------- history in one process over one configuration dict
+        if sc.get("history") and "history" in res:
+            h = sc["history"]
+            m_steps, _m_cfg = model.call(ENG, I(Sym("history"), res["history"]["url"], [[k, v] for k, v in h["headers"].items()], True,
+                                                 [[[k, v] for k, v in e.items()] for e in h["envs"]]))
+            for i, (stp, ms, env) in enumerate(zip(res["history"]["steps"], m_steps, h["envs"])):
+                run.count()
+                run.dist("introspection_kind", "history step (same config object)")
+                replay = {**base_replay, "history": h, "step": i, "impl": {k: v for k, v in stp.items() if k != "package"}, "model": ms}
+                if not stp["config_unchanged"]:
+                    run.violation(f"history step {i}: main.client modified the configuration dict it was given", replay)
+                if ms[0] == "err":
+                    if not stp["error"] or "InvalidConfiguration" not in stp["error"]["type"] or stp["requests"]:
+                        run.violation(f"history step {i}: ${ms[1]} is unset, expected InvalidConfiguration and no request; got "
+                                      f"{stp['error']} / {len(stp['requests'])} request(s)", replay)
+                    continue
+                if stp["error"] or len(stp["requests"]) != 1:
+                    run.violation(f"history step {i}: generation failed or wrong number of requests: {stp['error']}", replay)
+                    continue
+                got = {k.lower(): v for k, v in stp["requests"][0]["headers"]}
+                for k, v in ms[1]:
+                    if got.get(k.lower()) != v:
+                        run.violation(f"history step {i}: header {k} sent as {got.get(k.lower())!r}; the configuration "
+                                      f"{h['headers'][k]!r} under {env} resolves to {v!r}", replay)
+                for f in sp:
+                    if f != "input_types.py" and module_equal_modulo_order(sp[f], stp["package"].get(f)):
+                        run.violation(f"history step {i}: {f} differs from the single-file package", {**replay, "file": f})
     run.extra["scenarios"] = n
 
 
@@ -1259,6 +1359,7 @@ def run(ctx):
         k2_tricky_docs(ctx)
         k_loader(ctx, tmp)
         k_headers(ctx)
+        k_histories(ctx, tmp)
         k_outcomes(ctx)
         k_scenarios(ctx, tmp)
     finally:
